@@ -354,6 +354,74 @@ fn free_one(rt: &tokio::runtime::Runtime, seed: u64, clients: usize, nops: usize
     emit_history(out, "free", json!({"seed": seed, "clients": clients, "ops": nops}), &ops);
 }
 
+// ---------------------------------------------------------------------------
+// connection level: real connection handlers on duplex streams sharing one state
+
+fn argv_of(s: &Sub) -> Argv {
+    match s.kind {
+        "set" => vec![b("SET"), b(&s.key), b(&s.arg)],
+        "get" => vec![b("GET"), b(&s.key)],
+        "del" => vec![b("DEL"), b(&s.key)],
+        "getset" => vec![b("GETSET"), b(&s.key), b(&s.arg)],
+        _ => vec![b("INCRBY"), b(&s.key), b(&s.arg)],
+    }
+}
+
+fn conn_one(rt: &tokio::runtime::Runtime, seed: u64, clients: usize, nops: usize, nkeys: usize, out: &mut Out) {
+    let shards = 4;
+    let names = key_names(nkeys + 1, shards);
+    let regs: Vec<String> = names[..nkeys].to_vec();
+    let ctrs: Vec<String> = names[nkeys..].to_vec();
+    let ticket = Arc::new(AtomicU64::new(1));
+    let serial = Arc::new(AtomicU64::new(1));
+    let done: Arc<Mutex<Vec<Done>>> = Arc::new(Mutex::new(Vec::new()));
+    rt.block_on(async {
+        let st: redis_sim::production::ShardedActorState = ShardedActorState::with_config(ShardConfig::with_shards(shards));
+        let barrier = Arc::new(tokio::sync::Barrier::new(clients));
+        let mut hs = Vec::new();
+        for c in 0..clients {
+            let (ticket, serial, done, barrier, regs, ctrs) = (ticket.clone(), serial.clone(), done.clone(), barrier.clone(), regs.clone(), ctrs.clone());
+            let mut cl = crate::txn::Client::connect(&st);
+            hs.push(tokio::spawn(async move {
+                let mut rng = rng(seed.wrapping_mul(1000).wrapping_add(c as u64));
+                barrier.wait().await;
+                let mut left = nops;
+                while left > 0 {
+                    // a pipeline of 1..4 single-key commands written at once
+                    let depth = rng.gen_range(1..=4usize).min(left);
+                    left -= depth;
+                    let mut calls = Vec::new();
+                    while calls.len() < depth {
+                        let call = random_call(&mut rng, &regs, &ctrs, &serial);
+                        if call.subs.len() == 1 {
+                            calls.push(Call { path: "conn", subs: call.subs });
+                        }
+                    }
+                    let argvs: Vec<Argv> = calls.iter().map(|c| argv_of(&c.subs[0])).collect();
+                    let inv = ticket.fetch_add(1, Ordering::SeqCst);
+                    if !cl.send_all(&argvs).await {
+                        break;
+                    }
+                    for call in calls {
+                        let r = cl.read_reply().await;
+                        let ret = ticket.fetch_add(1, Ordering::SeqCst);
+                        done.lock().unwrap().push(Done { id: 0, c: c + 1, call, inv, ret, replies: Some(vec![r]) });
+                    }
+                }
+            }));
+        }
+        for h in hs {
+            let _ = h.await;
+        }
+    });
+    let mut ops = std::mem::take(&mut *done.lock().unwrap());
+    ops.sort_by_key(|d| (d.inv, d.ret));
+    for (i, d) in ops.iter_mut().enumerate() {
+        d.id = i + 1;
+    }
+    emit_history(out, "connection", json!({"seed": seed, "clients": clients, "ops": nops}), &ops);
+}
+
 pub fn main(args: &[String]) -> i32 {
     let a = Args::parse(args);
     quiet_panics();
@@ -373,8 +441,15 @@ pub fn main(args: &[String]) -> i32 {
                 free_one(&rt, seed * 100_000 + i as u64, a.usize("clients", 4), a.usize("ops", 5), a.usize("keys", 2), &mut out);
             }
         }
+        Some("conn") => {
+            let rt = tokio::runtime::Builder::new_multi_thread().worker_threads(a.usize("threads", 4)).enable_all().build().unwrap();
+            let seed = a.u64("seed", 1);
+            for i in 0..a.usize("n", 100) {
+                conn_one(&rt, seed * 100_000 + i as u64, a.usize("clients", 3), a.usize("ops", 8), a.usize("keys", 2), &mut out);
+            }
+        }
         _ => {
-            eprintln!("usage: vh lin scripted <file> | free");
+            eprintln!("usage: vh lin scripted <file> | free | conn");
             return 2;
         }
     }
